@@ -7,6 +7,7 @@ from sim.simlib import Sim, pdu
 
 ID = 'C15'
 TARGETS = ['SmppVerif.Props.C15']
+THOROUGH_ROUNDS = 3
 RULE = ('sessions in all three bind modes with: bursts of queued messages (plain and segmented) while the sending hook suspends for '
         'random times (so several _send_data invocations are in flight: sender, responses of the receiver, keep-alive probes, the '
         'unbind of stop()), deliver_sm / enquire_link / unsupported requests / unparsable PDUs from the SMSC at random moments '
